@@ -113,6 +113,7 @@ pub enum Op {
     /// add an output to a step
     AddOut { step: usize, name: String },
     SetPoolDepth { pool: usize, depth: usize },
+    SetDefaults { defaults: Vec<String> },
     DeleteDb,
     /// machine death without sync: cut the log to len*num/1000 bytes (or exactly `exact`)
     TruncDb { num: usize, exact: Option<usize> },
@@ -235,6 +236,7 @@ impl Profile {
             }
             "C04" => {
                 f.name = "C04";
+                f.gen_pct = 8;
                 f.pool_pct = 80;
                 f.wide_pct = 60;
                 f.nopool_pct = 15;
@@ -244,6 +246,7 @@ impl Profile {
             }
             "C05" => {
                 f.name = "C05";
+                f.gen_pct = 10;
                 f.fail_pct = 75;
                 f.k_pct = 85;
                 f.sigint_pct = 8;
@@ -772,6 +775,14 @@ pub fn apply_abstract(p: &mut Project, op: &Op) -> bool {
                 false
             }
         }
+        Op::SetDefaults { defaults } => {
+            let m = p.mentioned();
+            if defaults.iter().any(|d| !m.contains(d) && p.src(d).is_none()) {
+                return false;
+            }
+            p.defaults = defaults.clone();
+            true
+        }
         Op::DeleteDb | Op::TruncDb { .. } | Op::SetVariant { .. } | Op::Invoke(_) => true,
     }
 }
@@ -876,7 +887,18 @@ fn gen_edit(r: &mut Rng, p: &Project, pf: &Profile, next_id: &mut usize) -> Opti
     let y = r.below(100) as u64;
     let structural = r.pct(pf.struct_pct);
     if structural {
-        return Some(match r.below(6) {
+        return Some(match r.below(7) {
+            6 => {
+                let outs = p.all_outs();
+                let mut d = Vec::new();
+                for _ in 0..r.below(3) {
+                    let o = outs[r.below(outs.len())].clone();
+                    if !d.contains(&o) {
+                        d.push(o);
+                    }
+                }
+                Op::SetDefaults { defaults: d }
+            }
             0 | 1 => Op::Respell {
                 spell: 1 + r.next() % 1_000_000,
                 order_seed: r.next(),
@@ -1047,7 +1069,7 @@ pub fn gen_scenario(seed: u64, pf: &Profile) -> Scenario {
             for _ in 0..1 + r.below(3) {
                 if let Some(op) = gen_edit(&mut r, &v, &pf2, &mut next_id) {
                     match op {
-                        Op::Salt { .. } | Op::AddStep { .. } | Op::RemoveStep { .. } | Op::MoveOut { .. } | Op::AddOut { .. } | Op::Decor { .. } | Op::RspVer { .. } | Op::SetPoolDepth { .. } => {
+                        Op::Salt { .. } | Op::AddStep { .. } | Op::RemoveStep { .. } | Op::MoveOut { .. } | Op::AddOut { .. } | Op::Decor { .. } | Op::RspVer { .. } | Op::SetPoolDepth { .. } | Op::SetDefaults { .. } => {
                             apply_abstract(&mut v, &op);
                         }
                         Op::Respell { order_seed, spell } => {
@@ -1097,7 +1119,7 @@ pub fn gen_scenario(seed: u64, pf: &Profile) -> Scenario {
             if with_gen {
                 // structural edits go through the generator only
                 match op {
-                    Op::Salt { .. } | Op::AddStep { .. } | Op::RemoveStep { .. } | Op::MoveOut { .. } | Op::AddOut { .. } | Op::Respell { .. } | Op::Decor { .. } | Op::RspVer { .. } | Op::SetPoolDepth { .. } => continue,
+                    Op::Salt { .. } | Op::AddStep { .. } | Op::RemoveStep { .. } | Op::MoveOut { .. } | Op::AddOut { .. } | Op::Respell { .. } | Op::Decor { .. } | Op::RspVer { .. } | Op::SetPoolDepth { .. } | Op::SetDefaults { .. } => continue,
                     _ => {}
                 }
             }
